@@ -18,7 +18,6 @@ use interchain_token_service::InterchainTokenService;
 use serde::{Deserialize, Serialize};
 use serde_json::{json, Value};
 use soroban_sdk::testutils::Address as _;
-use soroban_sdk::xdr::ScVal;
 use soroban_sdk::{Address, BytesN, IntoVal, String as SStr, TryFromVal, Val, Vec as SVec};
 use soroban_token_sdk::metadata::TokenMetadata;
 use upgrader::Upgrader;
@@ -75,6 +74,9 @@ pub enum UOp {
     OpenWindow { target: u8 },
     TransferOwnership { target: u8, to: u8, auth: AuthVar },
     ViaUpgrader { target: u8, version: VerSel, wasm: WasmSel, cover: Cover, data: MigData, abort: Option<u16> },
+    /// the Upgrader drives the harness target whose version is state (see harness::labelled_target):
+    /// requested version "0.<req>.0", code hash stamping "0.<hash_ver>.0", migration data re-stamping "0.<d>.0"
+    UpgraderLabelled { req: u8, hash_ver: u8, data: Option<u8>, cover: Cover, abort: Option<u16> },
     Advance { dseq: u32 },
     Resubmit { k: u16 },
 }
@@ -87,6 +89,7 @@ impl UOp {
             UOp::OpenWindow { .. } => "open_window",
             UOp::TransferOwnership { .. } => "transfer_ownership",
             UOp::ViaUpgrader { .. } => "via_upgrader",
+            UOp::UpgraderLabelled { .. } => "upgrader_labelled",
             UOp::Advance { .. } => "advance",
             UOp::Resubmit { .. } => "resubmit",
         }
@@ -121,6 +124,9 @@ pub struct UExec {
     pub v_contract: String,
     pub v_dummy: String,
     pub history: Vec<UOp>,
+    pub labelled: Address,
+    /// model of the labelled target: the digit of its version label "0.<d>.0"
+    pub label: u8,
 }
 
 pub struct WorldU;
@@ -418,6 +424,70 @@ impl UExec {
                 let _ = code_before;
                 ctx.count("probe.upgrader_completed_both_steps");
             }
+            UOp::UpgraderLabelled { req, hash_ver, data, cover, abort } => {
+                let taddr = self.labelled.clone();
+                let ver = |d: u8| format!("0.{}.0", d % 10);
+                let (req, hv) = (*req % 10, *hash_ver % 10);
+                let mut hb = [0x11u8; 32];
+                hb[0] = hv;
+                let hash = BytesN::from_array(&env, &hb);
+                let md: Option<SStr> = data.map(|d| SStr::from_str(&env, &ver(d)));
+                let margs: SVec<Val> = (md.clone(),).into_val(&env);
+                let args: SVec<Val> = (taddr.clone(), SStr::from_str(&env, &ver(req)), hash.clone(), margs.clone()).into_val(&env);
+                let up_node = AuthNode::new(&taddr, "upgrade", (hash.clone(),).into_val(&env));
+                let mg_node = AuthNode::new(&taddr, "migrate", margs.clone());
+                let who = |i: usize| self.p[i].clone();
+                let (entries, covered): (Vec<AuthEntry>, bool) = match cover {
+                    Cover::Both => (vec![AuthEntry { who: who(0), root: up_node }, AuthEntry { who: who(0), root: mg_node }], true),
+                    Cover::UpgradeOnly => (vec![AuthEntry { who: who(0), root: up_node }], false),
+                    Cover::MigrateOnly => (vec![AuthEntry { who: who(0), root: mg_node }], false),
+                    Cover::Nobody => (vec![], false),
+                    Cover::StrangerBoth | Cover::FormerBoth => (vec![AuthEntry { who: who(STRANGER), root: up_node }, AuthEntry { who: who(STRANGER), root: mg_node }], false),
+                };
+                if *cover != Cover::Both {
+                    ctx.count(&format!("F7.upgrader.{:?}", cover));
+                }
+                let after_upgrade = hv;
+                let after_migrate = data.map(|d| d % 10).unwrap_or(after_upgrade);
+                let expect: Option<&'static str> = if req == self.label {
+                    Some("same-version-requested")
+                } else if !covered {
+                    Some("owner-did-not-authorise-both-steps")
+                } else if after_migrate != req {
+                    if after_upgrade == req {
+                        ctx.count("probe.upgrader_version_right_after_upgrade_wrong_after_migrate");
+                    }
+                    Some("version-after-migration-differs-from-requested")
+                } else {
+                    if after_upgrade != req {
+                        ctx.count("probe.upgrader_version_right_only_after_migrate");
+                    }
+                    None
+                };
+                let label = expect.unwrap_or("accept");
+                ctx.judged(&["C15"], hash_of(&self.label) ^ 0x1abe11ed, "upgrader_labelled", label);
+                let before = self.sim.digest_of(&taddr);
+                let up = self.upgrader.clone();
+                let res = self.sim.call(&up, "upgrade", args, &entries, *abort);
+                let after = self.sim.digest_of(&taddr);
+                ctx.note(|| format!("upgrader -> labelled-target label={} req={} hash->{} data->{:?} cover={:?} expect={} -> {}", self.label, req, hv, data, cover, label, res.out.err_text()));
+                if !after_call(ctx, &res, "upgrader.upgrade", &["C15"]) {
+                    return;
+                }
+                ctx.count(&format!("op.upgrader_labelled.{}.{}", label, res.out.class()));
+                if let Some(why) = expect {
+                    if !must_fail(ctx, &res, &["C15"], &format!("upgrader/completed-despite:{}", why), why) {
+                        return;
+                    }
+                    ctx.check(before == after, &["C15"], "upgrader/failed-upgrade-changed-target", || "a failed upgrade through the Upgrader left the target's version or data changed".into());
+                    return;
+                }
+                if !ctx.check(res.out.is_ok(), &["C15"], "upgrader/valid-upgrade-refused", || res.out.err_text()) {
+                    return;
+                }
+                self.label = after_migrate;
+                ctx.count("probe.upgrader_completed_both_steps");
+            }
             UOp::Advance { dseq } => {
                 crate::common::advance_ledgers(&self.sim, ctx, *dseq);
             }
@@ -445,6 +515,16 @@ impl UExec {
                 return;
             }
         }
+        let lt = self.labelled.clone();
+        let v = self.sim.query(&lt, "version", SVec::new(&env));
+        let vv = v.val().and_then(|x| SStr::try_from_val(&env, &x).ok()).map(|s| sstr_to_string(&s));
+        let want = format!("0.{}.0", self.label);
+        if !ctx.check(vv.as_deref() == Some(&want), &["C15"], "invariant/version-differs", || format!("labelled-target version() = {:?}, model {}", vv, want)) {
+            return;
+        }
+        let pend = self.sim.query(&lt, "pending", SVec::new(&env));
+        let pv = pend.val().and_then(|x| bool::try_from_val(&env, &x).ok());
+        ctx.check(pv == Some(false), &["C15"], "invariant/migration-window-differs", || "labelled-target is left between its two steps".into());
     }
 }
 
@@ -463,7 +543,7 @@ impl World for WorldU {
     fn generate(rng: &mut Rng, p: GenParams) -> (UCfg, Vec<UOp>) {
         let f_abort = p.faults && rng.chance(1, 2);
         let n = rng.range(6, if p.thorough { 30 } else { 20 }) as usize;
-        let w: [u32; 6] = if p.focus == "C06" { [30, 25, 8, 25, 6, 6] } else { [24, 30, 12, 8, 20, if p.faults { 6 } else { 0 }] };
+        let w: [u32; 7] = if p.focus == "C06" { [30, 25, 8, 25, 6, 6, 2] } else { [24, 30, 12, 8, 20, if p.faults { 6 } else { 0 }, 8] };
         let mut ops = vec![];
         // a run concentrates on few targets so that sequences get long enough
         let focus_targets: Vec<u8> = (0..rng.range(1, 3)).map(|_| rng.below(NT as u64) as u8).collect();
@@ -491,7 +571,17 @@ impl World for WorldU {
                         abort,
                     }
                 }
-                _ => UOp::Resubmit { k: rng.below(32) as u16 },
+                5 => UOp::Resubmit { k: rng.below(32) as u16 },
+                _ => {
+                    let req = rng.range(1, 4) as u8;
+                    UOp::UpgraderLabelled {
+                        req,
+                        hash_ver: if rng.chance(1, 2) { req } else { rng.range(1, 4) as u8 },
+                        data: match rng.weighted(&[3, 4, 3]) { 0 => None, 1 => Some(req), _ => Some(rng.range(1, 4) as u8) },
+                        cover: if p.faults && rng.chance(1, 4) { rng.pick(&[Cover::UpgradeOnly, Cover::MigrateOnly, Cover::Nobody, Cover::StrangerBoth]).clone() } else { Cover::Both },
+                        abort,
+                    }
+                }
             };
             let opened = matches!(op, UOp::OpenWindow { .. } | UOp::Upgrade { auth: AuthVar::Right, .. });
             ops.push(op);
@@ -532,6 +622,7 @@ impl World for WorldU {
         let derived = env.register(DerivedDummy, (&p[0],));
         let ndummy = env.register(NativeDummy, (&p[0],));
         let upgrader = env.register(Upgrader, ());
+        let labelled = env.register(crate::harness::labelled_target::LabelledTarget, (&p[0],));
         let h_contract = env.deployer().upload_contract_wasm(CONTRACT_WASM);
         let h_dummy = env.deployer().upload_contract_wasm(DUMMY_WASM);
         // what versions do the pre-built artefacts report?
@@ -547,7 +638,7 @@ impl World for WorldU {
         sim.end_setup();
         let targets = vec![gateway, gas, operators, its, token, derived, ndummy];
         let m: Vec<TModel> = (0..NT).map(|_| TModel { code: Code::Native, window: false, owner: 0, former: None, upgrades: 0, migrations: 0 }).collect();
-        let mut ex = UExec { sim, p, targets, upgrader, m, h_contract, h_dummy, v_contract, v_dummy, history: vec![] };
+        let mut ex = UExec { sim, p, targets, upgrader, m, h_contract, h_dummy, v_contract, v_dummy, history: vec![], labelled, label: 1 };
         ex.invariants(ctx);
         for (i, op) in ops.iter().enumerate() {
             if ctx.stopped() {
@@ -567,6 +658,12 @@ impl World for WorldU {
             };
             ctx.trace_str(eff.kind());
             ex.run_op(ctx, &eff);
+            if i % 3 == 1 && !ctx.stopped() {
+                let mut addrs = ex.p.clone();
+                addrs.extend(ex.targets.iter().cloned());
+                let up = ex.upgrader.clone();
+                crate::surface::probe_unlisted(ctx, &mut ex.sim, &up, "upgrader", &addrs, &["C15", "C06"], &["C15", "C06"]);
+            }
             if !matches!(op, UOp::Resubmit { .. } | UOp::Advance { .. }) {
                 ex.history.push(op.clone());
             }
@@ -585,7 +682,7 @@ impl World for WorldU {
     fn simplify(op: &UOp) -> Vec<UOp> {
         let mut o = op.clone();
         match &mut o {
-            UOp::Upgrade { abort, .. } | UOp::Migrate { abort, .. } | UOp::ViaUpgrader { abort, .. } => {
+            UOp::Upgrade { abort, .. } | UOp::Migrate { abort, .. } | UOp::ViaUpgrader { abort, .. } | UOp::UpgraderLabelled { abort, .. } => {
                 if abort.is_some() {
                     *abort = None;
                     return vec![o];
